@@ -144,8 +144,37 @@ class Skeleton:
                 self.returned.append(st.value.id)
             self._scan_expr(st.value, st, stack, conds)
 
+    def _ctor_alias(self, call):
+        """`ctor = A if cond else B` ... `ctor(name, shape)`: the variable class is chosen at run time.  Returns the weakest candidate
+        (a real / symmetric class if any branch can pick one) and the selecting condition, or None."""
+        if not isinstance(call.func, ast.Name):
+            return None
+        by_attr = {"HermitianVariable": "picos.HermitianVariable", "SymmetricVariable": "picos.SymmetricVariable",
+                   "RealVariable": "picos.RealVariable", "ComplexVariable": "picos.ComplexVariable"}
+        cands, cond = [], None
+        for n in ast.walk(self.f.node):
+            if isinstance(n, ast.Assign) and len(n.targets) == 1 and isinstance(n.targets[0], ast.Name) and n.targets[0].id == call.func.id:
+                vals = [n.value.body, n.value.orelse] if isinstance(n.value, ast.IfExp) else [n.value]
+                if isinstance(n.value, ast.IfExp):
+                    cond = unparse(n.value.test)
+                for v in vals:
+                    nm = v.attr if isinstance(v, ast.Attribute) else v.id if isinstance(v, ast.Name) else None
+                    if nm in by_attr:
+                        cands.append(by_attr[nm])
+                    else:
+                        return None
+        if not cands:
+            return None
+        weak = [c for c in cands if c in ("picos.SymmetricVariable", "picos.RealVariable")]
+        return (weak[0] if weak else cands[0]), cond, sorted(set(cands))
+
     def _var_from_call(self, call):
         lib = self._lib(call)
+        alias = None
+        if lib not in VAR_CTORS:
+            alias = self._ctor_alias(call)
+            if alias is not None:
+                lib = alias[0]
         if lib in VAR_CTORS:
             attrs = {}
             for kw in call.keywords:
@@ -164,6 +193,8 @@ class Skeleton:
                     attrs["hermitian"] = ("c", True)
                 if VAR_CTORS[lib] == "picos-sym":
                     attrs["symmetric"] = ("c", True)
+            if alias is not None and len(alias[2]) > 1:
+                attrs["chosen_by"] = ("c", f"{' / '.join(x.split('.')[-1] for x in alias[2])} chosen by `{alias[1]}`")
             return lib, attrs, shape
         return None
 
@@ -500,10 +531,17 @@ def r_hermitian_vars(ctx, f, sk: Skeleton, rule="R-DTYPE", allow_real=()):
             continue
         n += 1
         herm = v.attrs.get("hermitian") == ("c", True) or v.attrs.get("complex") == ("c", True)
-        ctx.ob(rule, f, f"matrix variable `{v.name}` is Hermitian (complex), not real symmetric", bool(herm),
+        if not herm and "chosen_by" in v.attrs:
+            import re as _re
+            # a run-time choice between a complex and a real class is sound only if the test covers the whole data; a test of one
+            # element (`vectors[0]`) is a violation, a quantified test (all / any over the data) is left undecided
+            single = _re.search(r"\b\w+\[\s*-?\d+\s*\]", v.attrs["chosen_by"][1]) is not None
+            herm = False if single else None
+        ctx.ob(rule, f, f"matrix variable `{v.name}` is Hermitian (complex), not real symmetric", herm if herm is None else bool(herm),
                f"{v.ctor.split('.')[-1]}{' hermitian=True' if 'cvxpy' in v.ctor else ''}" if herm else
                f"`{v.name}` is declared {v.ctor.split('.')[-1]} {sorted(k for k in v.attrs if k in ('symmetric', 'PSD', 'psd'))}: real symmetric -- for complex states the "
-               "feasible set shrinks and primal/dual no longer agree", v.node)
+               "feasible set shrinks and primal/dual no longer agree" + (f" ({v.attrs['chosen_by'][1]}: the test looks at part of the data only, so an ensemble "
+                                                                      "whose tested part is real and whose rest is complex gets real variables)" if "chosen_by" in v.attrs else ""), v.node)
     return n
 
 
